@@ -2135,10 +2135,10 @@ def replay_scopes(a):
     exe = a.cli()
     if not exe:
         return {"reproduced": False, "note": "native build failed"}
-    data = ('{"Size": 80, "Name": "Ab",\n "L": [ {"x": 1, "y": 1}, {"x": 2, "y": 2} ],\n'
+    data = ('{"Size": 80, "Name": "Ab", "Ports": [80, 443],\n "L": [ {"x": 1, "y": 1}, {"x": 2, "y": 2} ],\n'
             ' "R": {"a": {"Type": "A::B::C", "v": 1}, "b": {"Type": "A::B::C", "v": 2}}}\n')
     # several assignments of every kind in one scope: each must be registered (under its own name, with its own value)
-    prefix = "let limit = 10\nlet big = Size\nlet two = 2\nlet first = L[0].x\nlet up = to_upper(Name)\nlet lo = to_lower(Name)\n"
+    prefix = "let ports = Ports\nlet limit = 10\nlet big = Size\nlet two = 2\nlet first = L[0].x\nlet up = to_upper(Name)\nlet lo = to_lower(Name)\n"
     cases = [
         # guard of an inner when block sees the OUTER variable, the guarded block's own let does not leak into it
         ("when %limit == 10 {\n    let limit = 99\n    Size <= 50\n  }", "FAIL"),
@@ -2168,6 +2168,11 @@ def replay_scopes(a):
         ("L[*] {\n    let p = x\n    let q = y\n    %q == 1\n  }", "FAIL"),
         # an unused variable never influences a verdict
         ("when Size == 80 {\n    let unused = 1\n    Size == 80\n  }", "PASS"),
+        # ... not even one whose evaluation would be an error (variables are lazy: `R.%ports` with integer keys is an error when read)
+        ("when Size == 80 {\n    let bad = R.%ports\n    Size == 80\n  }", "PASS"),
+        ("L[*] {\n    let bad = R.%ports\n    x >= 1\n  }", "PASS"),
+        ("L[*] {\n    let bad = R.%ports\n    x >= 2\n  }", "FAIL"),
+        ("let bad = R.%ports\n  Size == 80", "PASS"),
     ]
     out = a.replay_cases(exe, data, cases, prefix=prefix)
     # rule-level guard and type-block guard: same discipline
